@@ -223,11 +223,11 @@ fn c03_scn(cfg: Cfg, full: bool) -> C03 {
             }
             Life::Live => {
                 if !v.registered(1) {
-                    for l in ["PASS right", "PASS wrong", "PASS userpw", "NICK n", "USER cfguser 0 * :r", "USER other 0 * :r", "CAP LS 302", "CAP END", "QUIT"] {
+                    for l in ["PASS right", "PASS wrong", "PASS userpw", "NICK n", "USER cfguser 0 * :r", "USER other 0 * :r", "CAP LS 302", "CAP REQ :sasl", "CAP END", "QUIT"] {
                         acts.push(Act::Send(1, l.to_string()));
                     }
                     if full {
-                        for l in ["CAP REQ :multi-prefix", "AUTHENTICATE PLAIN", "NICK wit", "CAP LIST"] {
+                        for l in ["CAP REQ :multi-prefix", "CAP REQ :multi-prefix sasl", "CAP REQ", "AUTHENTICATE PLAIN", "NICK wit", "CAP LIST"] {
                             acts.push(Act::Send(1, l.to_string()));
                         }
                     }
